@@ -400,10 +400,11 @@ def run_property(hm, tier, seed):
         if rr.get("reproduced"):
             print("KNOWN-FINDING: property=%s %s [%s]" % (pid, k["what"], k["id"]))
             kf_confirmed.append(k["id"])
-            if k.get("predicate"):
-                excluded.append(k["predicate"])
         else:
-            print("note: known finding %s no longer reproduces on this tree (not excluded from the search)" % k["id"])
+            print("note: the stored witness of open known finding %s does not reproduce on this tree; its scenario class "
+                  "stays assumed away (an open entry is only ever removed by editing known_findings.json)" % k["id"])
+        if k.get("predicate"):
+            excluded.append(k["predicate"])
     sys.stdout.flush()
 
     env(True)
